@@ -29,7 +29,7 @@ def renderOpt : Option Aggregate → String
   | some a => renderAgg a
 
 def wfRound (rs : List Report) : Bool :=
-  !rs.isEmpty && rs.all (fun r => (parseHex r.value).isSome) && rs.all (fun r => decide (1 ≤ r.power)) &&
+  !rs.isEmpty && rs.all (fun r => (parseHex (strip0x r.value)).isSome) && rs.all (fun r => decide (1 ≤ r.power)) &&
     decide (psum rs < 2^63)
 
 /-- is `b` a permutation of `a` (decidable, quadratic) -/
@@ -39,7 +39,7 @@ def isPerm [DecidableEq α] : List α → List α → Bool
 
 /-- the statement of `C06_median_full` evaluated on an aggregate the implementation returned -/
 def isWeightedMedian (rs : List Report) (a : Aggregate) : Bool :=
-  rs.any (fun r => r.value == a.value && r.reporter == a.reporter && r.block == a.microHeight) &&
+  rs.any (fun r => strip0x r.value == a.value && r.reporter == a.reporter && r.block == a.microHeight) &&
   decide (2 * powerBelow rs (aggValD a) ≤ psum rs) &&
   decide (2 * powerUpTo rs (aggValD a) ≥ psum rs) &&
   a.power == psum rs &&
@@ -62,13 +62,15 @@ def runMedian (inp : List String) (out : String) : Option Res := do
 
 /-- the statement of C06 for the mode + C01 determinism, on the set of outputs the implementation produced -/
 def isWeightedMode (rs : List Report) (a : Aggregate) : Bool :=
-  rs.all (fun r => decide (weight rs r.value ≤ weight rs a.value)) &&
-  rs.any (fun r => r.value == a.value && r.reporter == a.reporter && r.block == a.microHeight) &&
+  -- the raw (possibly 0x-prefixed) value the named reporter submitted
+  let raw := ((rs.filter (fun r => r.reporter == a.reporter && strip0x r.value == a.value)).map (·.value)).headD a.value
+  rs.all (fun r => decide (weight rs r.value ≤ weight rs raw)) &&
+  rs.any (fun r => strip0x r.value == a.value && r.reporter == a.reporter && r.block == a.microHeight) &&
   a.power == psum rs % 2^64 &&
   a.reporters == rs.map toAggReporter &&
   ((a.reporters[a.index]?).map (·.reporter) == some a.reporter) &&
   -- the named reporter is a strongest reporter of the chosen value
-  rs.all (fun r => !(r.value == a.value) || decide (r.power ≤ ((a.reporters[a.index]?).map (·.power)).getD 0))
+  rs.all (fun r => !(r.value == raw) || decide (r.power ≤ ((a.reporters[a.index]?).map (·.power)).getD 0))
 
 def runMode (inp : List String) (out : String) : Option Res := do
   match inp with
